@@ -140,6 +140,9 @@ class _ReleaseLeftovers:
                 p.join(2.0)          # terminate() has been sent; give the signal time to land
             X.SCRIPT.leftover_alive = len([p for p in alive if p.is_alive()])
         else:
+            # (after a single interrupt run_tasks gives control back only once the executing tasks have finished: nothing should be
+            # alive here; what is, is counted, then allowed to finish)
+            X.SCRIPT.alive_after_single = len(alive) if (TICKER is not None and TICKER.fired == 1) else 0
             for p in alive:
                 p.release_and_join()
         return False
@@ -161,6 +164,7 @@ def run_interrupt(case, k1, k2, forced=None):
         X.SCRIPT = None
         TICKER = None
         script.leftover_alive = getattr(script, 'leftover_alive', 0)
+        script.alive_after_single = getattr(script, 'alive_after_single', 0)
     subs = [e[1] for e in obs['events'] if e[0] == 'submit']
     # which workers finished during each executor wait, as task ids
     fid_to_tid = {}
